@@ -1,0 +1,61 @@
+//go:build verif
+
+// Contracts for govc (comment-only file; see /verif/DESIGN.md section 3).
+package round
+
+//@ spec fn expectsP2P(Iface) Bool
+
+// Accessors of a session are constant per object (implemented once, on *Helper, or as a constant).
+//@ interface Session method Number
+//@   pure
+//@ interface Session method SelfID
+//@   pure
+//@ interface Session method SSID
+//@   pure
+//@ interface Session method ProtocolID
+//@   pure
+//@ interface Session method FinalRoundNumber
+//@   pure
+//@ interface Session method PartyIDs
+//@   pure
+//@ interface Session method OtherPartyIDs
+//@   pure
+//@ interface Session method N
+//@   pure
+//@ interface Session method Threshold
+//@   pure
+//@ interface Session method Group
+//@   pure
+
+//@ interface Session method Hash
+//@   modifies nothing
+//@   allocates
+//@   ensures result != nil
+
+//@ interface Session method MessageContent
+//@   modifies nothing
+//@   allocates
+//@   ensures (result == nil) == !expectsP2P(self)
+
+//@ interface BroadcastRound method BroadcastContent
+//@   modifies nothing
+//@   allocates
+//@   ensures result != nil
+
+//@ interface Round method Finalize
+//@   requires out != nil && !closed(out)
+//@   modifies shared
+//@   ensures !closed(out)
+//@   ensures result1 == nil ==> result0 != nil
+//@   ensures typeis(result0, *Abort) ==> result0.(*Abort).Err != nil
+//@   ensures typeis(result0, *Output) ==> result0.(*Output).Result != nil
+
+//@ interface Round method VerifyMessage
+//@   modifies shared
+//@ interface Round method StoreMessage
+//@   modifies shared
+//@ interface BroadcastRound method StoreBroadcastMessage
+//@   modifies shared
+
+//@ interface Content method RoundNumber
+//@   pure
